@@ -18,7 +18,8 @@ META = {
         'instance each, no __eq__ override; (D3) Grid._approx_check never applies a kind-specific operation '
         '(attribute, method, arithmetic) to v2 unless v2\'s kind was tested, and Grid.__eq__ covers metadata keys '
         'and values, column keys, column-meta sizes and values, row count and every column of every row.  '
-        'Also (D3): per-kind components of _approx_check (datetime: zone, date, time; Quantity: unit, value; Coordinate: latitude, longitude) all enter the comparison; the float branch is exact tests plus ONE absolute tolerance in [5e-7, 1e-6] (relative or operand-dependent bounds are violations); (D1) __hash__ reads a field through the same coarsening (round/lower/...) that __eq__ compares.  Also (D1): __ne__ written as `not self.__eq__(other)` is refused when __eq__ answers NotImplemented for foreign kinds.  Not decided: reflexivity/symmetry over all pairs as executions; the float tolerance itself.'),
+        'Also (D3): per-kind components of _approx_check (datetime: zone, date, time; Quantity: unit, value; Coordinate: latitude, longitude) all enter the comparison; the float branch is exact tests plus ONE absolute tolerance in [5e-7, 1e-6] (relative or operand-dependent bounds are violations); (D1) __hash__ reads a field through the same coarsening (round/lower/...) that __eq__ compares.  Also (D1): __ne__ written as `not self.__eq__(other)` is refused when __eq__ answers NotImplemented for foreign kinds.  Not decided: reflexivity/symmetry over all pairs as executions; the float tolerance itself.'
+        " Also (D1): the unit test of Qty._cmp_op tells apart exactly the units __hash__ tells apart (decision table).  (D3) C16's refusal clause: nothing is written to a metadata/column map before the validator accepted the value, so a refused update cannot leave a key without value (Grid.__eq__ would raise KeyError)."),
     'rule_text': 'one obligation per (class, rule) for 10 classes, per singleton fact, per _approx_check branch '
                  '(guard dominance), per coverage fact of Grid.__eq__',
     'trusted_base': ['Python falls back to the reflected __eq__ and then to identity when NotImplemented is returned; '
@@ -38,6 +39,44 @@ def run(ctx):
     _singletons(ctx, m)
     _approx_check(ctx, m)
     _grid_eq(ctx, m)
+    # Grid.__eq__ walks metadata and columns key by key (`for k in a: a[k] ... b[k]`): it can only answer -- rather than
+    # raise KeyError -- while every key listed in _order has a value in _values, also after an update that was
+    # refused.  That is C16's refusal clause (nothing is written before the validator / the argument checks said yes).
+    from . import c16
+    c16._add_item(_Only(ctx, ('C16.D2',), 'C19.D3'), m.methods('sortabledict', 'SortableDict'))
+
+
+class _Only(object):
+    """context proxy: files the listed rules of another property under one rule of this property, drops the rest"""
+
+    def __init__(self, ctx, keep, new):
+        self._ctx, self._keep, self._new = ctx, keep, new
+        self.model = ctx.model
+
+    def ob(self, rule, *a, **k):
+        if rule in self._keep:
+            return self._ctx.ob(self._new, *a, **k)
+        return True
+
+    def violation(self, rule, *a, **k):
+        if rule in self._keep:
+            return self._ctx.violation(self._new, *a, **k)
+        return None
+
+    def error(self, rule, *a, **k):
+        return self._ctx.error(self._new, *a, **k)
+
+    def note(self, *a, **k):
+        return None
+
+    def count(self, *a, **k):
+        return None
+
+    def floor(self, *a, **k):
+        return None
+
+    def __getattr__(self, name):
+        return getattr(self._ctx, name)
 
 
 def _classes(m, modname):
@@ -94,6 +133,24 @@ def _value_classes(ctx, m):
                     n_eq += 1
                 else:
                     ctx.error('C19.D1', 'Qty.__hash__ has unrecognised form %r' % h)
+            # the hash tells raw units apart; so must the unit test that equality goes through
+            co = meths.get('_cmp_op')
+            if co is not None and len(co.args.args) == 3:
+                from . import c20 as _c20
+                s_, o_ = co.args.args[0].arg, co.args.args[1].arg
+                plain = {'%s.unit != %s.unit' % (o_, s_), '%s.unit != %s.unit' % (s_, o_), '%s.unit == %s.unit' % (o_, s_),
+                         '%s.unit == %s.unit' % (s_, o_)}
+                n_unit = 0
+                for node in ast.walk(co):
+                    if isinstance(node, ast.If):
+                        t = node.test.operand if isinstance(node.test, ast.UnaryOp) and isinstance(node.test.op, ast.Not) else node.test
+                        if '.unit' in norm(t):
+                            n_unit += 1
+                            if norm(t) not in plain:
+                                _c20._unit_predicate(ctx, co, norm(t), s_, o_, rule='C19.D1')
+                if n_unit:
+                    ctx.ob('C19.D1', 'Qty._cmp_op: %d unit test(s) decide exactly `the raw units differ`, what __hash__ hashes' % n_unit,
+                           True, where)
             continue
         if '__eq__' not in meths:
             if '__ne__' in meths:
